@@ -19,6 +19,7 @@ ops (TAB separated, strings hex):
   received <prefix> <channel|~> <lobotomized 0|1> <bans: exp:hexpattern,...|-> <ignores: same>   (the record of that channel)
   cfg <prefix> <channel|~> <allowShell 0|1> <parts list> <partsLower list> <non-op-settable prefixes: hex.hex.hex,...|->
   setdefaults <allowDefaultOwner 0|1> <caps>
+  voice <prefix> <msg.nick> <channel> <nicks>      (body of Channel.voice / devoice)
   canon <name>
   nrows | row <i> | nrequired | required <i>
 -/
@@ -195,6 +196,14 @@ def step (s : DState) : List String → DState × String
           | .noCapability c => "noCapability\t" ++ enc c
           | .crash e => "crash\t" ++ encErr e))
     | _, _, _, _, _, _, _ => (s, "bad-op")
+  | ["voice", p, nick, chan, nicks] =>
+    match dec p, dec nick, dec chan, decList nicks with
+    | some p, some nick, some chan, some nicks =>
+      (s, match voiceBody s.db s.now p nick chan nicks with
+          | .modes t => "modes\t" ++ encList t
+          | .noCapability c => "noCapability\t" ++ enc c
+          | .crash e => "crash\t" ++ encErr e)
+    | _, _, _, _ => (s, "bad-op")
   | ["setdefaults", allow, caps] =>
     match decBool allow, decList caps with
     | some allow, some caps =>
